@@ -362,6 +362,18 @@ SPECS["C09"]["items"] = [dict(name="token_roundtrip_total", comment="for every w
                          dict(name="ser_script_wf")] + SPECS["C09"]["items"]
 
 
+SPECS["C01"]["imports"] += "\nFrom BB Require Import Ebnf Chars G4Data Loader LayoutP Render RenderP."
+SPECS["C01"]["items"] = [
+    dict(name="ser_text_roundtrip", comment="TEXT level: the characters obtained by rendering the serialised script (one space after every token, none after NEWLINE and TAB) are read back by the model's maximal-munch lexer and its parser as that very script (fuel exhaustion, i.e. Unspec, excluded by the hypothesis)"),
+    dict(name="ser_lex_ok", comment="the names, numbers and strings the serialiser writes are lexically safe whenever the program's own names are (names_ok: identifiers that are not reserved words, register-shaped or Measure-shaped)"),
+    dict(name="text_roundtrip", comment="for ANY well-formed script whose tokens are lexically safe: render, lex, parse gives the script back (positions erased)"),
+    dict(name="render_lex", comment="the lexer level on its own: a list of tokens each of which lexes alone is read back from its rendering, token by token"),
+    dict(name="lex_ok_tok_sound", comment="the boolean criterion for a token text to lex alone is sound (INT, FLOAT, COMPLEX, STR, REGREF, MEASURE, NAME shapes; literals checked by running the lexer)"),
+] + SPECS["C01"]["items"]
+SPECS["C09"]["imports"] = SPECS["C01"]["imports"]
+SPECS["C09"]["items"] = [dict(name="ser_text_roundtrip", comment="TEXT level, for every well-formed program VALUE with lexically safe names: the rendered serialisation is read back as the serialised script")] + SPECS["C09"]["items"]
+
+
 def main():
     which = sys.argv[1:] or sorted(SPECS)
     for p in which:
